@@ -17,6 +17,16 @@ def see_bound(fn, n):
 
 def strip_addr(fn, n):
     n = see_bound(fn, n)
+    # a local that holds the address of an object (`struct aws_mutex *m = &s->mutex;`) names that object
+    for _ in range(3):
+        if n is not None and n["k"] == "var" and n.get("sc") == "local" and n["n"] in fn.aliases():
+            m = fn.aliases()[n["n"]]
+            while m is not None and m["k"] == "cast" and m.get("ck") in ("BitCast", "NoOp"):
+                m = fn.d(m["a"][0])
+            if m is not None and m["k"] == "un" and m["op"] == "addr":
+                n = m
+                continue
+        break
     while n is not None and n["k"] in ("cast", "decay") and n.get("ck") in ("BitCast", "NoOp", "ArrayToPointerDecay", None):
         if n["k"] == "cast" and n.get("ck") not in ("BitCast", "NoOp"):
             break
@@ -40,6 +50,43 @@ def resolve(fn, n):
             n = fn.aliases()[n["n"]]
         else:
             break
+    return n
+
+
+def origin(fn, n, use=None):
+    """n seen through casts and through a local that has exactly one definition - its declaration's initialiser, a call
+    included (`const size_t size = get_size(x); if (i >= size)`).  With `use` (an event): only when no other call lies
+    between the declaration and the use on the dominator chain (the cached result cannot be stale)."""
+    for _ in range(6):
+        n = uncast(fn, n)
+        if n is None or n["k"] != "var" or n.get("sc") != "local":
+            return n
+        a = fn.aliases().get(n["n"])
+        if a is not None:
+            n = a
+            continue
+        decls = [(e, v) for e in fn.all_events() if e.kind == "decl" for v in e.node["vars"] if v["n"] == n["n"]]
+        if len(decls) != 1 or decls[0][1].get("init") is None:
+            return n
+        name = n["n"]
+        rewritten = False
+        for b in fn.blocks.values():
+            for el in b.elems:
+                for x in fn.walk(el):
+                    if x["k"] == "bin" and x["op"] in ASSIGN_OPS and (fn.d(x["a"][0]) or {}).get("k") == "var" and fn.d(x["a"][0])["n"] == name:
+                        rewritten = True
+                    if x["k"] == "un" and x["op"] in ("addr", "pre++", "pre--", "post++", "post--") and (fn.d(x["a"][0]) or {}).get("k") == "var" and fn.d(x["a"][0])["n"] == name:
+                        rewritten = True
+        if rewritten:
+            return n
+        init = uncast(fn, decls[0][1]["init"])
+        if use is not None and init is not None and init["k"] == "call":
+            dom = dominators(fn)
+            between = [e for e in fn.all_events() if e.kind == "call" and e.node is not init and ev_dominates(fn, decls[0][0], e, dom) and ev_dominates(fn, e, use, dom)
+                       and not (e.node.get("callee") or "").startswith(("aws_fatal_assert", "__builtin_expect"))]
+            if between:
+                return n
+        n = init
     return n
 
 
